@@ -170,8 +170,31 @@ func treeAlphabet(r *Rng, t *Tree, extra []File) []Op {
 	)
 	// the whole built-in function table, several calls of each function per render
 	ops = append(ops, Op{Kind: "string", Name: "allfuncs", Data: BuiltinSweepData()}, Op{Kind: "evalstr", Src: BuiltinSweepSrc, Data: BuiltinSweepData()})
+	// chains of 1..8 @elseif branches with and without @else, every branch reachable through v
+	for _, v := range []int{0, 3, 5, 9} {
+		ops = append(ops, Op{Kind: "string", Name: "branchy", Data: mk([]string{"v"}, VInt(v))})
+	}
+	ops = append(ops, Op{Kind: "response", Name: "branchy", Data: mk([]string{"v"}, VInt(4))})
 	return ops
 }
+
+// branchySrc: @if chains with every number of @elseif branches from 0 to 8, with and without @else.
+var branchySrc = func() string {
+	var b strings.Builder
+	for n := 0; n <= 8; n++ {
+		for _, els := range []bool{true, false} {
+			fmt.Fprintf(&b, "<p>n%d:@if(v == 100)[if]", n)
+			for k := 1; k <= n; k++ {
+				fmt.Fprintf(&b, "@elseif(v == %d)[e%d]", k, k)
+			}
+			if els {
+				b.WriteString("@else[else]")
+			}
+			b.WriteString("@end</p>\n")
+		}
+	}
+	return b.String()
+}()
 
 func genC16Tree(r *Rng) (*Scenario, *Tree, []Op) {
 	o := TreeOpts{ErrPage: Pick(r, []string{"", "", "valid", "failing", "missing"}), Debug: r.Chance(50),
@@ -205,6 +228,7 @@ func genC16Tree(r *Rng) (*Scenario, *Tree, []Op) {
 		File{Path: t.path("floaty"), Data: "@for(f = 2.0; f > 0.0; f--)[{{ f }}]@end{{ base = 9.5 }}{{ base-- }}|{{ n = 3 }}{{ n++ }}|{{ g = 1.5 }}{{ g++ }}", Role: "page"},
 		File{Path: t.path("revpage"), Data: "<p>{{ xs.rev() }}</p><p>{{ xs }}</p>", Role: "page"},
 		File{Path: t.path("allfuncs"), Data: BuiltinSweepSrc, Role: "page"},
+		File{Path: t.path("branchy"), Data: branchySrc, Role: "page"},
 	)
 	// variants of the first page that fail (or not, depending on the data value zf) at a seeded
 	// statement boundary — top level, inside if/else, loops, inserts, component slots
